@@ -39,6 +39,7 @@ Definition E_EOF := 10.      (* ReadFrame: io.EOF before the first size byte *)
 Definition E_SIZE := 11.     (* ReadFrame: size truncated *)
 Definition E_FRAMELEN := 12. (* ReadFrame: invalid (negative) frame length *)
 Definition E_PAYLOAD := 13.  (* ReadFrame: payload truncated *)
+Definition E_CLOSED := 20.   (* handleConnection: request parse error logged, connection closed *)
 
 (* r.read(n): returns (bytes read, reader after) *)
 Definition rd_read (fixed : bool) (rest : bytes) (n : Z) : outcome (bytes * bytes) :=
@@ -123,23 +124,33 @@ Section Body.
         end
       else Err E_KEY).
 
-  (* handleConnection: read frames and parse requests until the first error; the
-     handler itself is outside this model.  Returns the per-frame parse outcomes
-     followed by the terminating frame error. *)
+  (* handleConnection: read frames and parse requests until the first error; the handler
+     itself is outside this model.  Result: the per-frame parse outcomes, how the loop
+     ended, and the bytes of the stream the server never read.
+       - ReadFrame error: the loop returns with that error (io.EOF silently, the others
+         logged); io.ReadFull has consumed whatever was there, except after an invalid
+         (negative) size, where only the 4 size bytes were read;
+       - ParseRequest error (header error, unsupported key, undecodable body): the ERROR
+         PATH — the error is logged and the function returns, the deferred conn.Close()
+         runs and nothing after that frame is read: [Err E_CLOSED];
+       - otherwise the request goes to the handler and the loop continues. *)
+  Definition unread_after_frame_error (e : Z) (s : bytes) : bytes :=
+    if e =? E_FRAMELEN then zdrop 4 s else [].
+
   Fixpoint serve (flex : Z -> Z -> bool) (fixed : bool) (fuel : nat) (s : bytes)
-    : list (outcome (header * B)) * outcome unit :=
+    : list (outcome (header * B)) * outcome unit * bytes :=
     match fuel with
-    | O => ([], OutOfFuel)
+    | O => ([], OutOfFuel, s)
     | S f =>
         match read_frame s with
         | Ok (payload, rest) =>
             match parse_request flex fixed payload with
-            | Ok r => let '(l, t) := serve flex fixed f rest in (Ok r :: l, t)
-            | o => ([o], Ok tt)                 (* parse error: connection closed *)
+            | Ok r => let '(l, t, u) := serve flex fixed f rest in (Ok r :: l, t, u)
+            | o => ([o], Err E_CLOSED, rest)
             end
-        | Err e => ([], Err e)
-        | Panic w => ([], Panic w)
-        | OutOfFuel => ([], OutOfFuel)
+        | Err e => ([], Err e, unread_after_frame_error e s)
+        | Panic w => ([], Panic w, s)
+        | OutOfFuel => ([], OutOfFuel, s)
         end
     end.
 End Body.
